@@ -285,6 +285,17 @@ def required_annotations(idx, res, fname, alg_pos, alg_cls):
     return out
 
 
+def _param_bound_to(idx, rule, helper, arg_name):
+    """the parameter of `helper` that receives the rule's local `arg_name` at the call in the rule"""
+    for c in df.calls(rule.func.node):
+        r = idx.resolve_expr(rule.func.module, c.func, rule.func)
+        if r is not None and r.kind == "funcs" and r.val[-1] is helper:
+            for p, e in df.bind_call(c, helper.params).items():
+                if isinstance(e, ast.Name) and e.id == arg_name:
+                    return p
+    return None
+
+
 def check_auto(idx, res, rep, fname, alg_pos, rule_name="auto-rule"):
     """obligations for every Auto rule of `fname`: exhaustive, and guard implication"""
     autos = [r for r in res.rules_of(fname) if alg_pos < len(r.params) and r.params[alg_pos][1] == frozenset({"Auto"})]
@@ -292,6 +303,13 @@ def check_auto(idx, res, rep, fname, alg_pos, rule_name="auto-rule"):
         rep.missing_anchor(f"Auto base case of {fname}")
         return
     for rule in autos:
+        # the options of the Auto object reach whatever iterative algorithm is constructed (in the rule or in the helper that chooses)
+        holders = [rule.func] + [r_.val[-1] for c_ in df.calls(rule.func.node) for r_ in [idx.resolve_expr(rule.func.module, c_.func, rule.func)]
+                                 if r_ is not None and r_.kind == "funcs" and getattr(r_.val[-1], "rule", None) is None and r_.val[-1].module is rule.func.module]
+        for h in holders:
+            ap = rule.params[alg_pos][0] if h is rule.func else _param_bound_to(idx, rule, h, rule.params[alg_pos][0])
+            if ap is not None:
+                option_forwarding(idx, rep, rule, h, ap)
         d = decision_table(idx, rule)
         construct = rule.role
         if d.problems:
@@ -326,3 +344,112 @@ def check_auto(idx, res, rep, fname, alg_pos, rule_name="auto-rule"):
                         detail=f"{cls}:{need}", locs=[rule.loc, r2.loc])
         else:
             rep.proved(rule_name, construct + ":guard-implication", f"{n} (chosen algorithm, asserted annotation) pairs are implied by the branch guard", locs=[rule.loc], nontrivial=n > 0)
+
+
+# ------------------------------------------------------------------------------------------------ options of Auto reach the chosen algorithm
+def _fields_of(idx, cname):
+    """dataclass fields (annotated class-level names) of an algorithm class, own and inherited"""
+    out = []
+    if not idx.has_cls(cname):
+        return out
+    for ci in reversed(idx.mro(idx.cls(cname))):
+        for st in ci.node.body:
+            if isinstance(st, ast.AnnAssign) and isinstance(st.target, ast.Name) and st.target.id not in out:
+                out.append(st.target.id)
+    return out
+
+
+def option_forwarding(idx, rep, rule, fi, alg_param, rule_name="auto-options"):
+    """Every iterative algorithm an Auto rule constructs must be configured from the Auto object's own options: either wholesale
+    (`K(**alg.__dict__)`) or field by field, each field f of K read from `alg` under the key f.  A field filled from another key
+    (`max_iters=opts.get("max_iter", ..)`) or from another object (`getattr(K, f)`) silently replaces what the caller asked for by
+    the default -- the tolerance / iteration cap contract of the property is then not honoured on that path."""
+    algs = {c.name for c in idx.algorithm_classes()}
+    construct = rule.role
+    n = 0
+
+    def resolve(e, depth=0):
+        e2 = df.resolve_value(fi.node, e) if isinstance(e, ast.Name) else e
+        return e2
+
+    def is_alg_dict(e):
+        """alg.__dict__ / vars(alg) / dict(alg.__dict__) / a copy of it"""
+        e = resolve(e)
+        if isinstance(e, ast.Attribute) and e.attr == "__dict__" and isinstance(e.value, ast.Name) and e.value.id == alg_param:
+            return True
+        if isinstance(e, ast.Call) and isinstance(e.func, ast.Name) and e.func.id in ("vars", "dict") and len(e.args) == 1:
+            return is_alg_dict(e.args[0]) or (e.func.id == "vars" and isinstance(e.args[0], ast.Name) and e.args[0].id == alg_param)
+        if isinstance(e, ast.Call) and isinstance(e.func, ast.Attribute) and e.func.attr == "copy" and not e.args:
+            return is_alg_dict(e.func.value)
+        return False
+
+    def option_read(e):
+        """(source ok?, key) when e reads one option: alg.f, alg.__dict__['f'], alg.__dict__.get('f', d), getattr(alg, 'f', d); None otherwise"""
+        e = resolve(e)
+        if isinstance(e, ast.Attribute) and isinstance(e.value, ast.Name):
+            return (e.value.id == alg_param, e.attr)
+        if isinstance(e, ast.Subscript) and isinstance(e.slice, ast.Constant) and isinstance(e.slice.value, str):
+            return (is_alg_dict(e.value), e.slice.value)
+        if isinstance(e, ast.Call) and isinstance(e.func, ast.Attribute) and e.func.attr == "get" and e.args and isinstance(e.args[0], ast.Constant) and isinstance(e.args[0].value, str):
+            return (is_alg_dict(e.func.value), e.args[0].value)
+        if isinstance(e, ast.Call) and isinstance(e.func, ast.Name) and e.func.id == "getattr" and len(e.args) >= 2 and isinstance(e.args[1], ast.Constant):
+            return (isinstance(e.args[0], ast.Name) and e.args[0].id == alg_param, e.args[1].value)
+        return None
+
+    for c in [x for x in ast.walk(fi.node) if isinstance(x, ast.Call)]:
+        r = idx.resolve_expr(fi.module, c.func, fi) if isinstance(c.func, (ast.Name, ast.Attribute)) else None
+        if r is None or r.kind != "class" or r.val.name not in algs:
+            continue
+        k = r.val.name
+        flds = _fields_of(idx, k)
+        if k == "Auto" or not ({"tol", "max_iters"} & set(flds)):
+            continue  # direct algorithms (Cholesky(), LU(), Eigh(), Exact(bs)) carry no tolerance / iteration contract
+        loc = [idx.loc(fi.module, c)]
+        n += 1
+        stars = [kw.value for kw in c.keywords if kw.arg is None]
+        named = {kw.arg: kw.value for kw in c.keywords if kw.arg is not None}
+        verdict, why = None, ""
+        if not stars and not named and not c.args:
+            par = getattr(c, "_parent", None)
+            if isinstance(par, ast.Assign) and len(par.targets) == 1 and isinstance(par.targets[0], ast.Name):
+                nm = par.targets[0].id
+                uses = [x for x in ast.walk(fi.node) if isinstance(x, ast.Name) and x.id == nm and isinstance(x.ctx, ast.Load)]
+                if uses and all(isinstance(getattr(u, "_parent", None), ast.Attribute) for u in uses):
+                    n -= 1
+                    continue  # an instance built only to read the class defaults from (`default = K(); ... default.tol`)
+            verdict, why = False, f"{k}() is constructed with its defaults: the options given to the Auto object are dropped"
+        elif stars and all(is_alg_dict(s) for s in stars) and not named and not c.args:
+            verdict, why = True, f"{k}(**{alg_param}.__dict__): every option of the Auto object is handed on"
+        elif stars and not named and not c.args and len(stars) == 1 and isinstance(resolve(stars[0]), ast.DictComp):
+            dc = resolve(stars[0])
+            # {f.name: getattr(SRC, f.name, f.default) for f in fields(K)}
+            v = dc.value
+            if isinstance(v, ast.Call) and isinstance(v.func, ast.Name) and v.func.id == "getattr" and v.args and isinstance(v.args[0], ast.Name):
+                ok = v.args[0].id == alg_param
+                same_key = len(v.args) > 1 and ast.dump(v.args[1]) == ast.dump(dc.key)
+                verdict = True if ok and same_key else False
+                why = f"{k} is configured field by field from `{v.args[0].id}`" + ("" if verdict else f": not from the Auto object `{alg_param}` -- the caller's options are replaced by defaults")
+            elif isinstance(v, ast.Call) and isinstance(v.func, ast.Attribute) and v.func.attr == "get" and is_alg_dict(v.func.value):
+                verdict = True if v.args and ast.dump(v.args[0]) == ast.dump(dc.key) else None
+                why = f"{k} is configured field by field from {alg_param}.__dict__"
+        elif named and not stars and not c.args:
+            bad = []
+            unknown = []
+            for f_, e in named.items():
+                rd = option_read(e)
+                if rd is None:
+                    unknown.append(f_)
+                elif not rd[0]:
+                    bad.append(f"{f_} is not read from the Auto object `{alg_param}`")
+                elif rd[1] != f_:
+                    bad.append(f"{f_} is filled from the option '{rd[1]}'")
+            if bad:
+                verdict, why = False, f"{k}(...): " + "; ".join(bad) + " -- the caller's value is silently replaced by the default"
+            elif not unknown:
+                verdict, why = True, f"{k}(...): fields {sorted(named)} are each read from `{alg_param}` under their own name"
+            else:
+                why = f"{k}(...): the values of {unknown} are not plain reads of an option"
+        if verdict is None and not why:
+            why = f"`{ast.unparse(c)[:60]}`: configuration not recognised"
+        rep.decide(verdict, rule_name, f"{construct}:{k}", why, detail="" if verdict else "dropped", locs=loc)
+    return n
